@@ -153,7 +153,7 @@ fn outcome_json(o: &Outcome) -> Value {
 
 /// the case grid (ClientCases): stored status x position of mono relative to as_of x drift class x void kind
 fn grid(rng: &mut StdRng, out: &mut Vec<Vector>) {
-    let asofs: [i128; 6] = [0, 1, 999_999_999, 12_345 * G + 678_901_234, 86_400 * G + 999_999_999, 2_000_000_000 * G + 5];
+    let asofs: [i128; 8] = [0, 1, 999_999_999, 12_345 * G + 678_901_234, 86_400 * G + 999_999_999, 2_000_000_000 * G + 5, 1000 * G, 7777 * G + 400];
     let drifts: [u32; 9] = [0, 1, 1000, 50_000, 999_999_999, 1_000_000_000, 1_000_000_001, u32::MAX, 123_456_789];
     let bounds: [i64; 5] = [0, 1, 123_456, 1 << 40, (1 << 60) - 1];
     for status in 0..3u8 {
